@@ -84,6 +84,8 @@ func (ks *keySet) class() string {
 		return "float"
 	case "string", "[]byte":
 		return "string-or-bytes"
+	case "string/long", "[]byte/long":
+		return "long-string-or-bytes"
 	case "bool":
 		return "bool"
 	}
@@ -112,7 +114,7 @@ func mkSet1[T any](name string, keys []T, canon func(T) string, exhaustive bool)
 		}
 		ks.nids = len(seen)
 	}
-	ks.show = func(k int) string { return fmt.Sprintf("%#v", keys[k]) }
+	ks.show = func(k int) string { return abbrev(fmt.Sprintf("%#v", keys[k])) }
 	ks.newBuf = func() colsBuf { return &col1[T]{keys: keys} }
 	return ks
 }
@@ -137,7 +139,9 @@ func mkSet2[A, B any](name string, ka []A, kb []B, ca func(A) string, cb func(B)
 		ks.ids[i] = id
 	}
 	ks.nids = len(seen)
-	ks.show = func(k int) string { return fmt.Sprintf("(%#v, %#v)", ka[pairs[k][0]], kb[pairs[k][1]]) }
+	ks.show = func(k int) string {
+		return "(" + abbrev(fmt.Sprintf("%#v", ka[pairs[k][0]])) + ", " + abbrev(fmt.Sprintf("%#v", kb[pairs[k][1]])) + ")"
+	}
 	ks.newBuf = func() colsBuf { return &col2[A, B]{ka: ka, kb: kb, pairs: pairs} }
 	return ks
 }
@@ -162,8 +166,8 @@ func lattice(bits uint, n int) []uint64 {
 	}
 	add(0)
 	add(mask)
-	add(mask >> 1)     // max signed
-	add(mask>>1 + 1)   // min signed
+	add(mask >> 1)   // max signed
+	add(mask>>1 + 1) // min signed
 	for k := uint(0); k < bits; k++ {
 		p := uint64(1) << k
 		add(p)
@@ -296,6 +300,18 @@ func keySets(wide int) []*keySet {
 		mkSet1("[]byte", bs, func(b []byte) string { return string(b) }, true),
 		mkSet1("bool", []bool{false, true}, nil, true),
 	)
+	// long strings / byte slices: lengths straddling plausible implementation
+	// thresholds (word, cache line, stack-buffer and page sizes), a few contents per
+	// length including pairs that differ only in the last or only in the first byte
+	ls := longStrs()
+	lb := make([][]byte, len(ls))
+	for i, s := range ls {
+		lb[i] = []byte(s)
+	}
+	sets = append(sets,
+		mkSet1("string/long", ls, nil, false),
+		mkSet1("[]byte/long", lb, nil, false),
+	)
 	// two-column prefixes
 	s2 := strs("ab\x00", 2)
 	i8 := conv(seq(256), func(p uint64) int8 { return int8(p) })
@@ -305,9 +321,47 @@ func keySets(wide int) []*keySet {
 		mkSet2("(uint16,bool)", conv(lattice(16, 512), func(p uint64) uint16 { return uint16(p) }), []bool{false, true}, func(v uint16) string { return fU(uint64(v)) }, func(b bool) string { return strconv.FormatBool(b) }),
 		mkSet2("(int64,float64)", conv(lattice(64, 128), func(p uint64) int64 { return int64(p) }), []float64{0, math.Copysign(0, -1), 1, -1, 0.5, math.Inf(1), math.Inf(-1), math.MaxFloat64, math.SmallestNonzeroFloat64, 1e10, 3, math.Pi},
 			func(v int64) string { return fI(v) }, canonF),
+		mkSet2("(string/long,int8)", ls, []int8{0, 1, -1, 127}, func(s string) string { return s }, func(v int8) string { return fI(int64(v)) }),
+		mkSet2("(bool,[]byte/long)", []bool{false, true}, lb, func(b bool) string { return strconv.FormatBool(b) }, func(b []byte) string { return string(b) }),
 		mkSet2("([]byte,int)", bs[:41], conv(lattice(64, 64), func(p uint64) int { return int(p) }), func(b []byte) string { return string(b) }, func(v int) string { return fI(int64(v)) }),
 	)
 	return sets
+}
+
+// longLens are the key lengths of the long string / byte slice key sets.
+var longLens = []int{7, 8, 9, 15, 16, 17, 31, 32, 33, 63, 64, 65, 127, 128, 129, 255, 256, 257, 1000, 4096}
+
+// longStrs returns, for every length in longLens, six pairwise different
+// strings: all 'a'; all 'a' but the last byte; all 'a' but the first byte; all
+// 'a' but the middle byte; a byte pattern; all zero bytes.
+func longStrs() []string {
+	var out []string
+	for _, n := range longLens {
+		a := make([]byte, n)
+		for i := range a {
+			a[i] = 'a'
+		}
+		last := append([]byte{}, a...)
+		last[n-1] = 'b'
+		first := append([]byte{}, a...)
+		first[0] = 'b'
+		mid := append([]byte{}, a...)
+		mid[n/2] = 'b'
+		pat := make([]byte, n)
+		for i := range pat {
+			pat[i] = byte((i*7 + n) % 251)
+		}
+		out = append(out, string(a), string(last), string(first), string(mid), string(pat), string(make([]byte, n)))
+	}
+	return out
+}
+
+// abbrev shortens the printed form of a long key (head, tail and length are kept).
+func abbrev(s string) string {
+	if len(s) <= 96 {
+		return s
+	}
+	return fmt.Sprintf("%s...%s (printed length %d)", s[:48], s[len(s)-24:], len(s))
 }
 
 func seq(n int) []uint64 {
@@ -333,11 +387,11 @@ type table struct {
 }
 
 type mismatch struct {
-	kind         string // hash | shard | range
-	id           int32
-	nshard       int
-	a, b         int64
-	rawA, rawB   int32
+	kind           string // hash | shard | range
+	id             int32
+	nshard         int
+	a, b           int64
+	rawA, rawB     int32
 	whereA, whereB string
 }
 
